@@ -219,13 +219,170 @@ class CFG:
 
     def guards(self, n):
         """[(test_expr, polarity, branch_node)] of branch nodes dominating n,
-        innermost first."""
+        innermost first.  Tests naming a snapshot local (see snapshots()) are
+        given with the local replaced by the expression it abbreviates."""
         out = []
         for d in self.dominators_of(n):
-            if d.kind == "branch" and d is not n:
-                out.append((d.ast, d.polarity, d))
-            elif d.kind == "branch" and d is n:
-                out.append((d.ast, d.polarity, d))
+            if d.kind == "branch":
+                t, pol = self.expand(d.ast, d), d.polarity
+                while isinstance(t, ast.UnaryOp) and isinstance(t.op, ast.Not):
+                    t, pol = t.operand, not pol
+                if t is not d.ast:
+                    t._guard_of = d.ast
+                out.append((t, pol, d))
+        return out
+
+    # ---- snapshot locals ---------------------------------------------------
+    _PURE_CALLS = ("len",)
+
+    def snapshots(self):
+        """{name: (defining stmt node, rhs, attrs read)} for locals that merely
+        abbreviate a side-effect-free read: bound exactly once, by `name = <expr>`,
+        where <expr> is built from constants, attribute chains rooted at a
+        parameter, len(), comparisons, not/and/or and arithmetic."""
+        if getattr(self, "_snap", None) is not None:
+            return self._snap
+        binds = {}
+        fn = self.fnode
+        params = {a.arg for a in fn.args.posonlyargs + fn.args.args + fn.args.kwonlyargs}
+        if fn.args.vararg:
+            params.add(fn.args.vararg.arg)
+        if fn.args.kwarg:
+            params.add(fn.args.kwarg.arg)
+
+        def own(node):
+            for ch in ast.iter_child_nodes(node):
+                if isinstance(ch, (ast.FunctionDef, ast.AsyncFunctionDef, ast.ClassDef, ast.Lambda)):
+                    continue
+                yield ch
+                yield from own(ch)
+        for n in own(fn):
+            if isinstance(n, ast.Name) and isinstance(n.ctx, (ast.Store, ast.Del)):
+                binds[n.id] = binds.get(n.id, 0) + 1
+            elif isinstance(n, (ast.Global, ast.Nonlocal)):
+                for x in n.names:
+                    binds[x] = binds.get(x, 0) + 2
+            elif isinstance(n, ast.ExceptHandler) and n.name:
+                binds[n.name] = binds.get(n.name, 0) + 2
+
+        def pure(e, attrs):
+            if isinstance(e, ast.Constant):
+                return True
+            if isinstance(e, ast.Name):
+                # a parameter that is never rebound
+                if e.id in params and not binds.get(e.id):
+                    attrs.append((e.id,))
+                    return True
+                return False
+            if isinstance(e, ast.Attribute):
+                b = e
+                while isinstance(b, ast.Attribute):
+                    b = b.value
+                if isinstance(b, ast.Name) and b.id in params:
+                    chain = []
+                    b = e
+                    while isinstance(b, ast.Attribute):
+                        chain.append(b.attr)
+                        b = b.value
+                    attrs.append(tuple(reversed(chain)))
+                    return True
+                return False
+            if isinstance(e, ast.Compare):
+                return pure(e.left, attrs) and all(pure(c, attrs) for c in e.comparators)
+            if isinstance(e, ast.BoolOp):
+                return all(pure(v, attrs) for v in e.values)
+            if isinstance(e, ast.UnaryOp):
+                return pure(e.operand, attrs)
+            if isinstance(e, ast.BinOp):
+                return pure(e.left, attrs) and pure(e.right, attrs)
+            if isinstance(e, ast.Call) and isinstance(e.func, ast.Name) and e.func.id in self._PURE_CALLS \
+                    and not e.keywords and len(e.args) == 1:
+                return pure(e.args[0], attrs)
+            return False
+        snap = {}
+        for nd in self.nodes:
+            a = nd.ast
+            if nd.kind == "stmt" and isinstance(a, ast.Assign) and len(a.targets) == 1 and isinstance(a.targets[0], ast.Name):
+                nm = a.targets[0].id
+                if binds.get(nm) == 1 and nm not in params and len(self.by_ast.get(id(a), [])) == 1:
+                    attrs = []
+                    if pure(a.value, attrs) and not isinstance(a.value, ast.Constant):
+                        snap[nm] = (nd, a.value, attrs)
+        self._snap = snap
+        return snap
+
+    def _stable(self, dnode, attrs, use):
+        """No statement on a path from the definition to the use may change what
+        the snapshot read: no store to an attribute of the same name, and - unless
+        the value is configuration (a chain through `.adj`) - no call other than
+        logging."""
+        volatile = [c for c in attrs if "adj" not in c[:-1]]
+        names = {c[-1] for c in attrs}
+        fwd = self.reach(dnode, follow_exc=True)
+        for n in self.nodes:
+            if n.id not in fwd or n is dnode or n is use or n.ast is None:
+                continue
+            if use.id not in self.reach(n, follow_exc=True):
+                continue
+            root = n.ast
+            if n.kind in ("with_enter",):
+                roots = [it.context_expr for it in root.items]
+            elif n.kind in ("iter", "with_exit", "dispatch", "handler", "join"):
+                roots = []
+            else:
+                roots = [root]
+            for r in roots:
+                for x in ast.walk(r):
+                    if isinstance(x, ast.Attribute) and isinstance(x.ctx, (ast.Store, ast.Del)) and x.attr in names:
+                        return False
+                    if isinstance(x, ast.Call) and volatile:
+                        d = x.func
+                        txt = []
+                        while isinstance(d, ast.Attribute):
+                            txt.append(d.attr)
+                            d = d.value
+                        if "logger" in txt[1:] or (isinstance(d, ast.Name) and d.id in self._PURE_CALLS and not txt):
+                            continue
+                        return False
+        return True
+
+    def test_of(self, st):
+        """The test of an if / while statement with snapshot locals expanded."""
+        tn = [n for n in self.nodes if n.kind == "test" and n.stmt is st]
+        if not tn:
+            return st.test
+        return self.expand(st.test, tn[0])
+
+    def expand(self, expr, use):
+        """expr with snapshot locals replaced by what they abbreviate, when that
+        is valid at CFG node `use`; returns expr itself if nothing changes."""
+        snap = self.snapshots()
+        if not snap or not any(isinstance(x, ast.Name) and x.id in snap for x in ast.walk(expr)):
+            return expr
+        cache = self.__dict__.setdefault("_expand_cache", {})
+        key = (id(expr), use.id)
+        if key in cache:
+            return cache[key]
+        g = self
+
+        class Sub(ast.NodeTransformer):
+            def visit_Name(self, node):
+                if isinstance(node.ctx, ast.Load) and node.id in snap:
+                    dnode, rhs, attrs = snap[node.id]
+                    if g.dominates(dnode, use) and g._stable(dnode, attrs, use):
+                        import copy
+                        new = copy.deepcopy(rhs)
+                        new = Sub().visit(new)
+                        for y in ast.walk(new):
+                            ast.copy_location(y, node)
+                        return new
+                return node
+        import copy
+        out = Sub().visit(copy.deepcopy(expr))
+        ast.fix_missing_locations(out)
+        if ast.dump(out) == ast.dump(expr):
+            out = expr
+        cache[key] = out
         return out
 
     def reach(self, start, avoid=(), follow_exc=True, through_start=True):
@@ -394,6 +551,18 @@ class _Builder:
                 return (tj if tj.pred else None), fj
         if isinstance(expr, ast.UnaryOp) and isinstance(expr.op, ast.Not):
             t, f = self.cond(expr.operand, cur, stmt)
+            return f, t
+        if isinstance(expr, ast.Compare) and len(expr.ops) == 1 and isinstance(expr.ops[0], (ast.NotIn, ast.NotEq, ast.IsNot)):
+            # canonical polarity: `a not in b` is the false outcome of `a in b`
+            pos = {ast.NotIn: ast.In, ast.NotEq: ast.Eq, ast.IsNot: ast.Is}[type(expr.ops[0])]()
+            e2 = ast.Compare(left=expr.left, ops=[pos], comparators=expr.comparators)
+            ast.copy_location(e2, expr)
+            e2._orig = getattr(expr, "_orig", expr)
+            e2._negated_from = expr
+            g.by_ast.setdefault(id(expr), [])
+            t, f = self.cond(e2, cur, stmt)
+            # nodes_of(<original expression>) still finds the test
+            g.by_ast[id(expr)].extend(g.by_ast.get(id(e2), []))
             return f, t
         tn = g._new("test", expr)
         tn.stmt = stmt
